@@ -1,11 +1,13 @@
 mod caps;
 mod cfgs;
+mod crash;
 mod edges;
 mod elem;
 mod exec;
 mod exec_range;
 mod exec_clone;
 mod exec_misc;
+mod exec_handles;
 mod galloc;
 mod mcmodel;
 mod track;
@@ -127,6 +129,7 @@ fn main() {
         }
         "run" => {
             quiet_panics();
+            crash::install();
             let prop = prop.expect("--prop");
             let names: Vec<String> = arg(&args, "--configs").expect("--configs").split(';').map(|s| s.to_string()).collect();
             let known = Arc::new(load_known(arg(&args, "--known")));
@@ -140,6 +143,7 @@ fn main() {
         }
         "replay" => {
             quiet_panics();
+            crash::install();
             let prop = prop.expect("--prop");
             let cfg = arg(&args, "--config").expect("--config");
             let state = arg(&args, "--state").expect("--state");
@@ -158,6 +162,7 @@ fn main() {
                     for e in edges::edges_for(prop, t, &*r, &st) {
                         if format!("{e:?}") != edge { continue; }
                         // run twice: identical observations or the harness is nondeterministic
+                        crash::set_current(&format!("config={cfg} | state={state} | edge={edge} | fault_at={fault} | stem={}/{}/{}/{}", e.family(), e.api(), e.src_kind(), e.sink_kind()));
                         let o1 = r.run(&st, &e, fault);
                         let o2 = r.run(&st, &e, fault);
                         let f1: Vec<String> = o1.fails.iter().map(|f| format!("{}:{}: {}", f.class.name(), f.kind, f.detail)).collect();
